@@ -139,7 +139,8 @@ impl<T: ReaderOffset> UnitOffset<T> {
     where
         R: Reader<Offset = T>,
     {
-        UnitSectionOffset(unit.offset().0 + self.0)
+        // The offset is unchecked, so it may be out of range; do not overflow.
+        UnitSectionOffset(unit.offset().0.wrapping_add(self.0))
     }
 
     /// Convert an offset to be relative to the start of the `.debug_info` section,
